@@ -496,6 +496,7 @@ FaultObjects(u) ==
   {Vec(cd[1], cd[2], st, n, Content(n, Z, "one", -1), <<>>) : cd \in Classes, st \in Storages, n \in {0, 3}, Z \in {{}, {1}}} \cup
   {Mat(cd[1], cd[2], st, 2, 2, Content(4, Z, "one", -1), <<>>) : cd \in Classes, st \in Storages, Z \in {{}, {1, 2}}} \cup
   {Mat("plain", "none", st, 0, 0, <<>>, <<>>) : st \in Storages} \cup
+  {Mat("plain", "none", "sparse", 3, 4, Content(12, {1, 2, 5, 6, 7, 8, 10}, "one", -1), <<>>)} \cup
   {Mat("plain", "none", st, 2, 3, Content(6, {}, "one", -1), <<SOp(0, 2, 1, 3)>>) : st \in {"dense"}}
 
 DistObjects(u) == {[k |-> "dist", cls |-> "none", st |-> "none", cfg |-> c] : c \in DistCfgs(u)}
@@ -543,7 +544,17 @@ JsonFaults(nd) ==
   \cup {[f |-> "Truncate"]}
   ELSE IF nd.t = "num" THEN
        {[f |-> "WrongType", field |-> "", idx |-> -1, to |-> t] : t \in {"str", "arr", "null", "obj"}} \cup {[f |-> "Truncate"]}
+       (* a bare scalar document of an integer scalar type: bounds, a fraction, a huge number *)
+       \cup {[f |-> "EntryRange", field |-> "", idx |-> -1, val |-> v, notation |-> nt] : v \in RangeVals \cup {"frac", "huge"}, nt \in Notations}
   ELSE {}
+
+MaxZ(a) == IF a > 0 THEN a ELSE 0
+CellOuts == {"col=cols", "col=cols+1", "col=-1", "row=rows", "row=-1"}
+CellCoord(o, w, R, C) ==   \* <<i, j>> of the damaged entry for header R C
+  LET vi == IF w = "first" THEN 0 ELSE MaxZ(R - 1)
+      vj == IF w = "first" THEN 0 ELSE MaxZ(C - 1)
+  IN CASE o = "col=cols" -> <<vi, C>> [] o = "col=cols+1" -> <<vi, C + 1>> [] o = "col=-1" -> <<vi, -1>>
+       [] o = "row=rows" -> <<R, vj>> [] o = "row=-1" -> <<-1, vj>>
 
 TableFaults(nd, x) ==
   IF nd.t # "table" THEN {} ELSE
@@ -556,6 +567,9 @@ TableFaults(nd, x) ==
         THEN {[f |-> "EntryRange", line |-> Len(nd.l) - 1, tok |-> Len(nd.l[Len(nd.l)]) - 1, val |-> v, notation |-> nt] :
                  v \in RangeVals, nt \in Notations}
         ELSE {})
+  (* sparse matrix entries around the bounds: one coordinate just outside, the other one valid *)
+  \cup (IF x.k = "matrix" /\ x.st = "sparse" /\ Len(nd.l) > 1 /\ Len(nd.l[1]) = 2 /\ Len(nd.l[Len(nd.l)]) = 3
+        THEN {[f |-> "CellIndex", out |-> o, other |-> w] : o \in CellOuts, w \in {"first", "last"}} ELSE {})
   \cup (IF x.st = "sparse" /\ Len(nd.l) > 0 /\ Len(nd.l[1]) > 0
         THEN {[f |-> "NegDim", field |-> "header"]} \cup
              (IF Len(nd.l) > 1 /\ Len(nd.l[2]) > 0 /\ Len(nd.l[Len(nd.l)]) > 0 THEN {[f |-> "DupIndex"], [f |-> "IndexOutOfRange", how |-> "high"], [f |-> "IndexOutOfRange", how |-> "negative"], [f |-> "LengthTooSmall"]} ELSE {})
@@ -578,7 +592,7 @@ CfgFaults(nd) ==
 FaultsOf(nd, x, fm) ==
   IF nd.t = "broken" THEN {}
   ELSE IF x.k = "dist" THEN CfgFaults(nd)
-  ELSE IF fm = "json" THEN {ft \in JsonFaults(nd) : ft.f = "EntryRange" => (x.k # "scalar" /\ x.cls = "plain")}
+  ELSE IF fm = "json" THEN {ft \in JsonFaults(nd) : ft.f = "EntryRange" => ((x.k # "scalar" /\ x.cls = "plain") \/ (x.k = "scalar" /\ x.cls = "bare"))}
   ELSE TableFaults(nd, x)
 
 (* effect of a fault on the abstract document *)
@@ -592,7 +606,8 @@ SizeOf(nd) == IF "Length" \in DOMAIN nd.f /\ nd.f.Length.t = "int" THEN nd.f.Len
               ELSE 1000
 ApplyJson(nd, ft) ==
   CASE ft.f = "Truncate" -> Broken
-    [] ft.f = "EntryRange" /\ ft.field = "" -> Arr([nd.v EXCEPT ![ft.idx + 1] = RangeTok(ft.val)])
+    [] ft.f = "EntryRange" /\ ft.field = "" /\ ft.idx = -1 -> RangeTok(ft.val)
+    [] ft.f = "EntryRange" /\ ft.field = "" /\ ft.idx >= 0 -> Arr([nd.v EXCEPT ![ft.idx + 1] = RangeTok(ft.val)])
     [] ft.f = "EntryRange" /\ ft.field # "" -> SetField(nd, ft.field, Arr([nd.f[ft.field].v EXCEPT ![ft.idx + 1] = RangeTok(ft.val)]))
     [] ft.f = "DropField" -> Obj([y \in (DOMAIN nd.f) \ {ft.field} |-> nd.f[y]])
     [] ft.f = "WrongType" /\ ft.field = "" /\ ft.idx = -1 -> Blank(ft.to)
@@ -631,6 +646,11 @@ ApplyTable(nd, ft, x) ==
     [] ft.f = "ExtraToken" -> Tab([L EXCEPT ![ft.line + 1] = Append(@, Num("one"))])
     [] ft.f = "NonNumeric" -> Tab([L EXCEPT ![ft.line + 1] = [@ EXCEPT ![ft.tok + 1] = TokStr]])
     [] ft.f = "EntryRange" -> Tab([L EXCEPT ![ft.line + 1] = [@ EXCEPT ![ft.tok + 1] = RangeTok(ft.val)]])
+    [] ft.f = "CellIndex" ->
+         IF L[1][1].t = "int" /\ L[1][2].t = "int"
+         THEN LET ij == CellCoord(ft.out, ft.other, L[1][1].i, L[1][2].i) IN
+              Tab([L EXCEPT ![Len(L)] = [@ EXCEPT ![1] = IntN(ij[1]), ![2] = IntN(ij[2])]])
+         ELSE nd
     [] ft.f = "NegDim" -> Tab([L EXCEPT ![1] = [@ EXCEPT ![1] = IF @.t = "int" THEN IntN(Neg(@.i)) ELSE @]])
     [] ft.f = "DupIndex" -> Tab(Append(L, [L[2] EXCEPT ![Len(L[2])] = Num("one")]))
     [] ft.f = "IndexOutOfRange" ->
@@ -687,10 +707,15 @@ LayoutsOf(x, f) ==
 (* data, real elements are variables) and reads into it.                      *)
 Rcv(pre, r, c, v) == [pre |-> pre, rows |-> r, cols |-> c, view |-> v]
 FreshRcv == Rcv("fresh", 0, 0, <<>>)
-MaxZ(a) == IF a > 0 THEN a ELSE 0
 UsedReceivers(x) ==
   LET d == Denote(x) IN
-  CASE x.k = "scalar" -> {Rcv("used", 0, 0, <<>>)}
+  CASE x.k = "scalar" /\ x.cls # "real" -> {Rcv("used", 0, 0, <<>>)}
+    [] x.k = "scalar" /\ x.cls = "real" ->
+         (* rows = Order, cols = N of the used receiver: order 1 and 2, N equal to the N the document carries and different *)
+         LET cn == Carried(x, "json").n
+             same == IF cn > 0 THEN cn ELSE 2
+         IN {Rcv("used-o1-sameN", 1, same, <<>>), Rcv("used-o2-sameN", 2, same, <<>>),
+             Rcv("used-o1-otherN", 1, same + 1, <<>>), Rcv("used-o2-otherN", 2, same + 1, <<>>)}
     [] x.k = "dist"   -> {Rcv("used", 0, 0, <<>>)}
     [] x.k = "vector" ->
          {Rcv("longer", d.n + 2, 0, <<>>), Rcv("sliced", d.n + 2, 0, <<[op |-> "S", i |-> 1, j |-> d.n + 1]>>)}
@@ -771,11 +796,11 @@ TypesOf(x) ==
                [] x.cls = "real"  -> RealTypes
   IN {ty \in all : \A a \in AtomsOf(x) : AtomOK(ty, a)}
 
-RangeFault == Len(faults) = 1 /\ faults[1].f = "EntryRange"
+RangeFault == Len(faults) = 1 /\ faults[1].f \in {"EntryRange", "CellIndex"}
 Case ==
   [obj |-> obj, fmt |-> fmt, faults |-> faults, layout |-> lay, rcv |-> rcv,
-   types |-> IF \E q \in 1..Len(faults) : faults[q].f = "EntryRange" THEN TypesOf(obj) \cap IntTypes ELSE TypesOf(obj),
-   expect |-> IF RangeFault THEN (IF faults[1].val \in {"above", "below"} THEN "error" ELSE "exact-or-error")
+   types |-> IF \E q \in 1..Len(faults) : faults[q].f = "EntryRange" THEN TypesOf(obj) \cap IntLike ELSE TypesOf(obj),
+   expect |-> IF RangeFault THEN (IF faults[1].f = "CellIndex" \/ faults[1].val \notin {"max", "min"} THEN "error" ELSE "exact-or-error")
               ELSE IF faults # <<>> THEN "error-or-wellformed"
               ELSE IF lay \in {"CRLF", "TrailingBlanks", "OneLine"} THEN "roundtrip-equal-or-error" ELSE "roundtrip-equal",
    exp |-> IF RangeFault /\ ~IsErr(Decoded) THEN Decoded
